@@ -13,6 +13,7 @@ import Heathcliff.Proofs.C02PG
 import Heathcliff.Proofs.C02PGW
 import Heathcliff.Proofs.C02PF
 import Heathcliff.Proofs.C02PFW
+import Heathcliff.Proofs.C02PRW
 
 /- Property theorems only (statements verbatim; proofs are the helper lemmas of Heathcliff/Proofs). -/
 namespace HC.C02
@@ -640,5 +641,15 @@ theorem bfv_enc_of_split : type_of% @HC.c02f_enc_of_split := @HC.c02f_enc_of_spl
 theorem bfv_levelOK_example : type_of% @HC.c02f_wLevelOK := @HC.c02f_wLevelOK
 theorem hom_program_bfv_example : type_of% @HC.hom_program_bfv_example := @HC.hom_program_bfv_example
 theorem hom_program_bfv_example_val : type_of% @HC.hom_program_bfv_example_val := @HC.hom_program_bfv_example_val
+
+/-- NON-VACUITY of the relinearisation hypotheses together with the level bundles: ciphertext level `mkLevel .bgv 4 [97, 113] 17`, key level
+    = moduli / tables / constants of `mkLevel .bgv 4 [97, 113, 193] 17` (P = 193), a GENUINE relinearisation key for s² (two digits, gadget
+    elements 10283 / 679, errors 17·ε_i) satisfying the key equation (`relinKeyEq_example`), `c02p_RelinOK`, `c02p_KeyLevelOf`; the program
+    relin(x0·x1) satisfies every hypothesis of `hom_program_bgv_levelled` (bookkeeping (0, 1, 2, 1747)) and decrypts to (1, 5, 14, 16) -/
+theorem relinKeyEq_example : type_of% @HC.c02p_rKeyEq := @HC.c02p_rKeyEq
+theorem relinOK_example : type_of% @HC.c02p_rRelinOK := @HC.c02p_rRelinOK
+theorem keyLevelOf_example : type_of% @HC.c02p_rKeyLevelOf := @HC.c02p_rKeyLevelOf
+theorem hom_program_bgv_relin_example : type_of% @HC.hom_program_bgv_relin_example := @HC.hom_program_bgv_relin_example
+theorem hom_program_bgv_relin_example_val : type_of% @HC.hom_program_bgv_relin_example_val := @HC.hom_program_bgv_relin_example_val
 
 end HC.C02
